@@ -119,3 +119,40 @@ def random_programs(rng, n, depth=3):
     finally:
         gen.NAMES = old
     return out
+
+
+def sibling_comprehension_programs():
+    """A variable of an outer function (or a global) read from a nested scope of a function that also contains a comprehension:
+    the comprehension variable and the outer variable are distinct bindings in sibling scopes, which is where name reuse
+    happens (and where CPython 3.12's comprehension inlining changes what the nested scope sees)."""
+    out = []
+    outers = {
+        'local': 'def outer_function():\n    outer_value = 7\n{B}\n    return inner_function()\nprint(outer_function())\n',
+        'param': 'def outer_function(outer_value=7, second_value=8):\n{B}\n    return inner_function()\nprint(outer_function())\n',
+        'global': 'outer_value = 7\ndef outer_function():\n{B}\n    return inner_function()\nprint(outer_function())\n',
+    }
+    readers = {
+        'lambda': 'reader = lambda: outer_value',
+        'def': 'def reader():\n    return outer_value',
+        'genexp': 'reader = lambda: list(outer_value for unused_item in range(1))',
+        'deep': 'def reader():\n    def deeper():\n        return outer_value\n    return deeper()',
+        'lambda-default': 'reader = lambda extra=1: outer_value + extra',
+    }
+    comps = {
+        'list': 'collected = [loop_item for loop_item in range(2)]',
+        'set': 'collected = {loop_item for loop_item in range(2)}',
+        'dict': 'collected = {loop_item: other_item for loop_item, other_item in [(1, 2)]}',
+        'nested': 'collected = [[loop_item for loop_item in range(2)] for outer_item in range(1)]',
+        'genexp': 'collected = list(loop_item for loop_item in range(2))',
+        'two': 'collected = [loop_item for loop_item in range(2)]\nmore = [third_item for third_item in range(3) if third_item]',
+        'lambda-inside': 'collected = [(lambda: loop_item)() for loop_item in range(2)]',
+    }
+    for ok, otmpl in sorted(outers.items()):
+        for rk, rd in sorted(readers.items()):
+            for ck, cp in sorted(comps.items()):
+                for order in ('comp-first', 'reader-first'):
+                    parts = [cp, rd] if order == 'comp-first' else [rd, cp]
+                    inner = 'def inner_function():\n' + '\n'.join('    ' + l for p in parts for l in p.split('\n')) + '\n    return reader(), collected'
+                    body = '\n'.join('    ' + l for l in inner.split('\n'))
+                    out.append(('sibling/%s/%s/%s/%s' % (ok, rk, ck, order), otmpl.replace('{B}', body)))
+    return out
